@@ -327,6 +327,15 @@ type %[1]sOut struct {
 			f.add(name, b.String())
 		}
 	}
+	// `default FUNC` (+ default:update) on a method whose POINTEE pair has an extend function / a declared method: the custom
+	// conversion is used for the pointee all the same
+	if id%3 == 0 {
+		f.Types += fmt.Sprintf("type %[1]sQB struct {\n\tStamp string\n}\n", p)
+		f.Custom += fmt.Sprintf("func AToB%[1]s(s string) %[1]sQB {\n\treturn %[1]sQB{Stamp: rt.Stamp(%[2]q, s)}\n}\n\nfunc NewB%[1]s() *%[1]sQB {\n\treturn &%[1]sQB{Stamp: \"ctor\"}\n}\n\n", p, "AToB"+p)
+		for k, upd := range []string{"", "// goverter:default:update\n"} {
+			f.add(fmt.Sprintf("%sQ%d", p, k), fmt.Sprintf("// goverter:converter\n// goverter:extend AToB%[1]s\n// goverter:useZeroValueOnPointerInconsistency\n%[3]stype %[1]sQ%[2]d interface {\n\t// goverter:default NewB%[1]s\n\tPB(source *string) *%[1]sQB\n\t// goverter:default NewB%[1]s\n\tVB(source string) *%[1]sQB\n}\n\n", p, k, upd))
+		}
+	}
 	// `default FUNC` with default:update on pointers whose pointee is NOT a struct (*string, *int, *[]string, *map): the
 	// conversion of a non-nil source is written THROUGH FUNC's pointer (the pointer FUNC returned is the one returned)
 	if id%3 == 2 {
@@ -802,6 +811,8 @@ func famEnum(r *rng.R, id int) *famOut {
 		sb.WriteString(fmt.Sprintf("type %[1]sTv %[2]s\n\nconst (\n\t%[1]sTvLow %[1]sTv = %[3]s\n\t%[1]sTvHigh %[1]sTv = %[4]s\n\t%[1]sTvDebug %[1]sTv = %[5]s\n\t%[1]sTvNone %[1]sTv = %[6]s\n)\n\n", p, under, lit(51), lit(52), lit(59), lit(50)))
 		f.Pkgs["p/vars_"+strings.ToLower(p)+".go"] = fmt.Sprintf("package p\n\n// goverter:variables\n// goverter:enum:unknown %[1]sTvNone\nvar (\n\t// goverter:enum:transform regex (?i)%[1]sLv(\\w+) %[1]sTv$1\n\tConvLv%[1]s func(source %[1]sLv) %[1]sTv\n)\n", p)
 	}
+	// member names in which a transformer pattern matches SEVERAL times (every match is replaced)
+	sb.WriteString(fmt.Sprintf("type %[1]sSt %[2]s\n\nconst (\n\t%[1]sSt_Not_Found %[1]sSt = %[3]s\n\t%[1]sSt_Too_Many_Requests %[1]sSt = %[4]s\n\t%[1]sSt_Ok %[1]sSt = %[5]s\n)\n\ntype %[1]sStT %[2]s\n\nconst (\n\t%[1]sStNotFound %[1]sStT = %[6]s\n\t%[1]sStTooManyRequests %[1]sStT = %[7]s\n\t%[1]sStOk %[1]sStT = %[8]s\n\t%[1]sSt_Not_Found_Legacy %[1]sStT = %[9]s\n)\n\n", p, under, lit(61), lit(62), lit(63), lit(71), lit(72), lit(73), lit(79)))
 	f.Types = sb.String()
 	var b strings.Builder
 	b.WriteString("// goverter:converter\n")
@@ -895,6 +906,17 @@ func famEnum(r *rng.R, id int) *famOut {
 			t = "(" + t + ", error)"
 		}
 		b.WriteString(fmt.Sprintf("\tMd(source %s.Mode) %s\n", qa, t))
+	}
+	if r.Chance(60) {
+		t := p + "StT"
+		if unknown == "@error" || r.Chance(30) {
+			t = "(" + t + ", error)"
+		}
+		b.WriteString("\t// goverter:enum:transform regex _([A-Z]) $1\n")
+		if unknown == "" || unknown == p+"TgtUnknown" {
+			b.WriteString("\t// goverter:enum:unknown @ignore\n")
+		}
+		b.WriteString(fmt.Sprintf("\tSt(source %sSt) %s\n", p, t))
 	}
 	b.WriteString("}\n\n")
 	f.add(p+"C", b.String())
